@@ -3,6 +3,7 @@
    (the oracle table) as data; these functions run the model of Model/Exclude.v on the same inputs
    with the table as glob engine and list the cases that differ.  No theorems here. *)
 From Regal Require Export Model.Exclude.
+From Coq Require Import FMapPositive Uint63.
 
 (* ------------------------------------------------------------------ helpers *)
 
@@ -44,17 +45,18 @@ Fixpoint indices_where {A} (p : A -> bool) (l : list A) (i : nat) : list nat :=
 
 (* ------------------------------------------------------------------ bulk: one pattern, all shapes *)
 
-(* a row of the oracle table: the pattern does not compile, or the bit set of matching columns *)
-Inductive row := RBad | ROk (m : N).
+(* a row of the oracle table: the pattern does not compile, or the bit set (least significant
+   first) of the columns of the universe it matches *)
+Inductive row := RBad | ROk (bits : list bool).
 
 Record shape := { sh_prefix : str; sh_files : list str; sh_rego_rel : list str }.
 
 Record pcase := {
   pc_pat : str;
-  pc_compiler : list str;           (* data.regal.config._pattern_compiler(p), observed *)
-  pc_rows : list (str * row);       (* gobwas/glob on every candidate expansion x column universe *)
-  pc_go : list (option N);          (* per shape: files excluded by FilterIgnoredPaths; None = error *)
-  pc_rego : list N }.               (* per shape: files with _exclude(p, _file_name_relative_to_root(f, prefix)) *)
+  pc_compiler : list str;             (* data.regal.config._pattern_compiler(p), observed *)
+  pc_rows : list (str * row);         (* gobwas/glob on every candidate expansion x column universe *)
+  pc_go : list (option (list bool));  (* per shape: files excluded by FilterIgnoredPaths; None = error *)
+  pc_rego : list (list bool) }.       (* per shape: files with _exclude(p, _file_name_relative_to_root(f, prefix)) *)
 
 Inductive rres := RMiss | RRow (r : row).
 
@@ -64,45 +66,86 @@ Fixpoint resolve (rows : list (str * row)) (e : str) : rres :=
   | (k, r) :: rows' => if str_eqb k e then RRow r else resolve rows' e
   end.
 
-Definition r_ok (r : rres) : bool := match r with RRow (ROk _) => true | _ => false end.
-Definition r_match (r : rres) (k : N) : bool := match r with RRow (ROk m) => N.testbit m k | _ => false end.
 Definition r_miss (r : rres) : bool := match r with RMiss => true | _ => false end.
 
-(* columns of the (relativised) file names of a shape in the universe *)
-Definition cols_of (universe : list str) (rel : str -> str -> str) (s : shape) : list (option N) :=
-  map (fun f => index_of_str (rel f (sh_prefix s)) universe 0) (sh_files s).
+(* one expansion seen from one column: (compiles, matches the column) *)
+Definition cell := (bool * bool)%type.
+Definition cell_ok (c : cell) : bool := fst c.
+Definition cell_match (c : cell) (_ : unit) : bool := snd c.
 
-(* Go: files in order, first error aborts; same loop as excludeFile (go_match_loop) on resolved rows *)
-Fixpoint go_mask (p : str) (rs : list rres) (cs : list (option N)) (i : N) (acc : N) : option N :=
+Definition head_bit (l : list bool) : bool := match l with b :: _ => b | [] => false end.
+
+Definition row_head (r : rres) : cell :=
+  match r with RRow (ROk bits) => (true, head_bit bits) | _ => (false, false) end.
+Definition row_tail (r : rres) : rres :=
+  match r with RRow (ROk bits) => RRow (ROk (tl bits)) | _ => r end.
+
+(* the answer of each side for every column of the universe, rows consumed in lockstep; the loops
+   are the model's own go_match_loop / rego_match_any *)
+Fixpoint go_columns (n : nat) (rs : list rres) : list gres :=
+  match n with
+  | O => []
+  | S n' => go_match_loop cell_ok cell_match (map row_head rs) tt :: go_columns n' (map row_tail rs)
+  end.
+
+Fixpoint rego_columns (n : nat) (rs : list rres) : list bool :=
+  match n with
+  | O => []
+  | S n' => rego_match_any cell_ok cell_match (map row_head rs) tt :: rego_columns n' (map row_tail rs)
+  end.
+
+Fixpoint to_map {A} (l : list A) (k : positive) (m : PositiveMap.t A) : PositiveMap.t A :=
+  match l with
+  | [] => m
+  | x :: l' => to_map l' (Pos.succ k) (PositiveMap.add k x m)
+  end.
+
+Fixpoint index_of_pos (s : str) (l : list str) (i : positive) : option positive :=
+  match l with
+  | [] => None
+  | x :: l' => if str_eqb s x then Some i else index_of_pos s l' (Pos.succ i)
+  end.
+
+(* columns of the (relativised) file names of a shape in the universe *)
+Definition cols_of (universe : list str) (rel : str -> str -> str) (s : shape) : list (option positive) :=
+  map (fun f => index_of_pos (rel f (sh_prefix s)) universe 1%positive) (sh_files s).
+
+(* Go: files in order, the first error aborts the whole call *)
+Fixpoint go_shape (p : str) (m : PositiveMap.t gres) (cs : list (option positive)) : option (list bool) :=
   match cs with
-  | [] => Some acc
+  | [] => Some []
   | None :: _ => None
   | Some k :: cs' =>
-      match p with
-      | [] => None
-      | _ => match go_match_loop r_ok r_match rs k with
-             | GOk true => go_mask p rs cs' (i + 1) (N.setbit acc i)
-             | GOk false => go_mask p rs cs' (i + 1) acc
-             | _ => None
-             end
+      match p, PositiveMap.find k m with
+      | _ :: _, Some (GOk b) => option_map (cons b) (go_shape p m cs')
+      | _, _ => None
       end
   end.
 
-Fixpoint rego_mask (p : str) (rs : list rres) (cs : list (option N)) (i : N) (acc : N) : N :=
+Fixpoint rego_shape (p : str) (m : PositiveMap.t bool) (cs : list (option positive)) : list bool :=
   match cs with
-  | [] => acc
-  | None :: cs' => rego_mask p rs cs' (i + 1) acc
+  | [] => []
+  | None :: cs' => false :: rego_shape p m cs'
   | Some k :: cs' =>
-      if negb (str_eqb p []) && rego_match_any r_ok r_match rs k
-      then rego_mask p rs cs' (i + 1) (N.setbit acc i)
-      else rego_mask p rs cs' (i + 1) acc
+      (negb (str_eqb p []) && match PositiveMap.find k m with Some b => b | None => false end)
+        :: rego_shape p m cs'
   end.
 
-Record prepared := { pr_go_cols : list (list (option N)); pr_rego_cols : list (list (option N));
+(* bit lists are compared up to trailing zeros (the wire format pads to whole bytes) *)
+Fixpoint bits_eqb (a b : list bool) : bool :=
+  match a, b with
+  | [], _ => negb (existsb (fun x => x) b)
+  | _, [] => negb (existsb (fun x => x) a)
+  | x :: a', y :: b' => Bool.eqb x y && bits_eqb a' b'
+  end.
+
+Record prepared := { pr_n : nat;
+                     pr_go_cols : list (list (option positive)); pr_rego_cols : list (list (option positive));
                      pr_rel_ok : list bool }.
 
 Definition prepare (universe : list str) (shapes : list shape) : prepared :=
-  {| pr_go_cols := map (cols_of universe go_rel) shapes;
+  {| pr_n := length universe;
+     pr_go_cols := map (cols_of universe go_rel) shapes;
      pr_rego_cols := map (cols_of universe rego_rel) shapes;
      pr_rel_ok := map (fun s => list_str_eqb (map (fun f => rego_rel f (sh_prefix s)) (sh_files s))
                                              (sh_rego_rel s)) shapes |}.
@@ -117,12 +160,6 @@ Fixpoint shape_codes (base : N) (s : N) (ok : list bool) : list N :=
   | b :: ok' => if b then shape_codes base (s + 1) ok' else (base + s) :: shape_codes base (s + 1) ok'
   end.
 
-Fixpoint zip3 {A B C} (a : list A) (b : list B) (c : list C) : list (A * B * C) :=
-  match a, b, c with
-  | x :: a', y :: b', z :: c' => (x, y, z) :: zip3 a' b' c'
-  | _, _, _ => []
-  end.
-
 Definition case_codes (pr : prepared) (c : pcase) : list N :=
   let p := pc_pat c in
   let gr := map (resolve (pc_rows c)) (go_expand p) in
@@ -131,9 +168,11 @@ Definition case_codes (pr : prepared) (c : pcase) : list N :=
               || existsb has_none (pr_go_cols pr) || existsb has_none (pr_rego_cols pr) in
   (if set_eq (rego_expand p) (pc_compiler c) then [] else [1]) ++
   (if miss then [2] else
-     shape_codes 1000 0 (map (fun '(cs, obs) => opt_eqb N.eqb (go_mask p gr cs 0 0) obs)
+     let gm := to_map (go_columns (pr_n pr) gr) 1%positive (PositiveMap.empty _) in
+     let rm := to_map (rego_columns (pr_n pr) rr) 1%positive (PositiveMap.empty _) in
+     shape_codes 1000 0 (map (fun '(cs, obs) => opt_eqb bits_eqb (go_shape p gm cs) obs)
                              (combine (pr_go_cols pr) (pc_go c))) ++
-     shape_codes 2000 0 (map (fun '(cs, obs) => N.eqb (rego_mask p rr cs 0 0) obs)
+     shape_codes 2000 0 (map (fun '(cs, obs) => bits_eqb (rego_shape p rm cs) obs)
                              (combine (pr_rego_cols pr) (pc_rego c)))).
 
 Fixpoint bulk_failures (pr : prepared) (cases : list pcase) (i : N) : list N :=
@@ -144,10 +183,6 @@ Fixpoint bulk_failures (pr : prepared) (cases : list pcase) (i : N) : list N :=
 
 (* shapes whose observed _file_name_relative_to_root differs from rego_rel *)
 Definition rel_failures (pr : prepared) : list N := shape_codes 0 0 (pr_rel_ok pr).
-
-(* how many (pattern, shape, file) triples were decided, and how many of them "excluded" *)
-Definition bulk_volume (pr : prepared) (cases : list pcase) : N :=
-  N.of_nat (length cases) * fold_left (fun a cs => a + N.of_nat (length cs)) (pr_go_cols pr) 0.
 
 (* ------------------------------------------------------------------ small self-contained cases *)
 
@@ -258,4 +293,152 @@ Fixpoint lint_failures (cases : list lcase) (i : N) : list N :=
   match cases with
   | [] => []
   | c :: cases' => map (fun code => i * 10000 + code) (lint_codes c) ++ lint_failures cases' (i + 1)
+  end.
+
+(* ------------------------------------------------------------------ wire format
+   Case data arrive as primitive integers (7 bytes each, little endian) because Coq elaborates
+   those quickly; the readers below turn the byte stream back into the records above.
+   u8; u16 = 2 bytes big endian; str = u16 length + bytes; list = u16 count + items;
+   option = u8 tag + item; bits = str, least significant bit of each byte first. *)
+
+Definition int_bytes (x : int) : list N :=
+  map (fun k => Z.to_N (Uint63.to_Z (Uint63.land (Uint63.lsr x k) 255%uint63)))
+      [0; 8; 16; 24; 32; 40; 48]%uint63.
+
+Definition unpack (chunks : list (list int)) : list N := flat_map (flat_map int_bytes) chunks.
+
+Definition rd (A : Type) := list N -> option (A * list N).
+Definition ret {A} (x : A) : rd A := fun s => Some (x, s).
+Definition bind {A B} (r : rd A) (f : A -> rd B) : rd B :=
+  fun s => match r s with Some (x, s') => f x s' | None => None end.
+Notation "x <- r ;; k" := (bind r (fun x => k)) (at level 61, r at next level, right associativity).
+
+Definition rd_u8 : rd N := fun s => match s with b :: s' => Some (b, s') | [] => None end.
+Definition rd_u16 : rd N := fun s => match s with a :: b :: s' => Some (a * 256 + b, s') | _ => None end.
+
+Fixpoint take (n : nat) (s : list N) : option (list N * list N) :=
+  match n with
+  | O => Some ([], s)
+  | S n' => match s with
+            | [] => None
+            | b :: s' => match take n' s' with Some (l, r) => Some (b :: l, r) | None => None end
+            end
+  end.
+
+Definition rd_str : rd str := n <- rd_u16 ;; take (N.to_nat n).
+
+Fixpoint rd_many {A} (r : rd A) (n : nat) : rd (list A) :=
+  match n with
+  | O => ret []
+  | S n' => x <- r ;; xs <- rd_many r n' ;; ret (x :: xs)
+  end.
+
+Definition rd_list {A} (r : rd A) : rd (list A) := n <- rd_u16 ;; rd_many r (N.to_nat n).
+Definition rd_opt {A} (r : rd A) : rd (option A) :=
+  t <- rd_u8 ;; if N.eqb t 0 then ret None else (x <- r ;; ret (Some x)).
+Definition rd_bool : rd bool := t <- rd_u8 ;; ret (negb (N.eqb t 0)).
+Definition rd_nat : rd nat := n <- rd_u16 ;; ret (N.to_nat n).
+
+Definition byte_bits (b : N) : list bool := map (N.testbit b) [0; 1; 2; 3; 4; 5; 6; 7].
+Definition rd_bits : rd (list bool) := bs <- rd_str ;; ret (flat_map byte_bits bs).
+
+Definition rd_row : rd (str * row) :=
+  e <- rd_str ;; ok <- rd_bool ;; bits <- rd_bits ;; ret (e, if ok then ROk bits else RBad).
+
+Definition rd_shape : rd shape :=
+  p <- rd_str ;; fs <- rd_list rd_str ;; rr <- rd_list rd_str ;;
+  ret {| sh_prefix := p; sh_files := fs; sh_rego_rel := rr |}.
+
+Definition rd_pcase : rd pcase :=
+  p <- rd_str ;; comp <- rd_list rd_str ;; rows <- rd_list rd_row ;;
+  go <- rd_list (rd_opt rd_bits) ;; rego <- rd_list rd_bits ;;
+  ret {| pc_pat := p; pc_compiler := comp; pc_rows := rows; pc_go := go; pc_rego := rego |}.
+
+Definition rd_table : rd table :=
+  rd_list (e <- rd_str ;; v <- rd_opt (rd_list rd_str) ;; ret (e, v)).
+
+Definition rd_scase : rd scase :=
+  pre <- rd_str ;; files <- rd_list rd_str ;; cli <- rd_list rd_str ;; cfg <- rd_opt (rd_list rd_str) ;;
+  rule <- rd_list rd_str ;; cols <- rd_list rd_str ;; t <- rd_table ;;
+  kept <- rd_opt (rd_list rd_str) ;; glob <- rd_opt (rd_list rd_str) ;; rel <- rd_list rd_str ;;
+  ex <- rd_list rd_nat ;; exg <- rd_list rd_nat ;;
+  ret {| sc_prefix := pre; sc_files := files; sc_cli := cli; sc_cfg := cfg; sc_rule := rule;
+         sc_cols := cols; sc_table := t; sc_go_kept := kept; sc_rego_global := glob;
+         sc_rego_rel := rel; sc_rego_excl := ex; sc_rego_excl_global := exg |}.
+
+Definition rd_lcase : rd lcase :=
+  pre <- rd_str ;; files <- rd_list rd_str ;; cli <- rd_list rd_str ;; cfg <- rd_opt (rd_list rd_str) ;;
+  ib <- rd_list rd_str ;; ic <- rd_list rd_str ;; ia <- rd_list rd_str ;;
+  cols <- rd_list rd_str ;; t <- rd_table ;; err <- rd_bool ;; sc <- rd_nat ;;
+  hb <- rd_list rd_str ;; hc <- rd_list rd_str ;; ha <- rd_list rd_str ;;
+  ret {| lc_prefix := pre; lc_files := files; lc_cli := cli; lc_cfg := cfg;
+         lc_ign_builtin := ib; lc_ign_custom := ic; lc_ign_agg := ia; lc_cols := cols; lc_table := t;
+         lc_err := err; lc_scanned := sc; lc_hit_builtin := hb; lc_hit_custom := hc; lc_hit_agg := ha |}.
+
+Definition decode_error : list N := [99999999].
+
+(* (number of cases decoded, failures, shapes with a relativisation mismatch) *)
+Definition pat_report (data : list (list int)) : N * list N * list N :=
+  match (u <- rd_list rd_str ;; sh <- rd_list rd_shape ;; cs <- rd_list rd_pcase ;; ret (u, sh, cs)) (unpack data) with
+  | Some ((u, sh, cs), _) =>
+      let pr := prepare u sh in (N.of_nat (length cs), bulk_failures pr cs 0, rel_failures pr)
+  | None => (0, decode_error, decode_error)
+  end.
+
+Definition small_report (data : list (list int)) : N * list N :=
+  match rd_list rd_scase (unpack data) with
+  | Some (cs, _) => (N.of_nat (length cs), small_failures cs 0)
+  | None => (0, decode_error)
+  end.
+
+Definition lint_report (data : list (list int)) : N * list N :=
+  match rd_list rd_lcase (unpack data) with
+  | Some (cs, _) => (N.of_nat (length cs), lint_failures cs 0)
+  | None => (0, decode_error)
+  end.
+
+(* ------------------------------------------------------------------ language server call sites *)
+
+Record wcase := {
+  wc_root : str; wc_uris : list str; wc_ignore : list str;
+  wc_cols : list str; wc_table : table;
+  wc_ignored : list bool;               (* LanguageServer.ignoreURI per URI *)
+  wc_modules : option (list str) }.     (* keys of LanguageServer.getFilteredModules (sorted), None = error *)
+
+Fixpoint bool_list_eqb (a b : list bool) : bool :=
+  match a, b with
+  | [], [] => true
+  | x :: a', y :: b' => Bool.eqb x y && bool_list_eqb a' b'
+  | _, _ => false
+  end.
+
+(* 1 = ignoreURI, 2 = getFilteredModules, 9 = table lacks something *)
+Definition lsp_codes (c : wcase) : list N :=
+  let t := wc_table c in
+  let ok := tbl_ok t in let m := tbl_match t in
+  let root := wc_root c in
+  if negb (tbl_covers t (wc_cols c) (wc_ignore c)
+                      (map (fun u => go_rel (uri_to_path u) (uri_to_path root)) (wc_uris c) ++
+                       map (fun u => go_rel u root) (wc_uris c)))
+  then [9] else
+  (if bool_list_eqb (map (lsp_ignore_uri ok m root (wc_ignore c)) (wc_uris c)) (wc_ignored c) then [] else [1]) ++
+  (if opt_eqb (fun a b => set_eq a b && Nat.eqb (length a) (length b))
+              (lsp_filtered_modules ok m root (wc_ignore c) (wc_uris c)) (wc_modules c) then [] else [2]).
+
+Fixpoint lsp_failures (cases : list wcase) (i : N) : list N :=
+  match cases with
+  | [] => []
+  | c :: cases' => map (fun code => i * 10000 + code) (lsp_codes c) ++ lsp_failures cases' (i + 1)
+  end.
+
+Definition rd_wcase : rd wcase :=
+  root <- rd_str ;; uris <- rd_list rd_str ;; ign <- rd_list rd_str ;; cols <- rd_list rd_str ;;
+  t <- rd_table ;; ig <- rd_list rd_bool ;; mods <- rd_opt (rd_list rd_str) ;;
+  ret {| wc_root := root; wc_uris := uris; wc_ignore := ign; wc_cols := cols; wc_table := t;
+         wc_ignored := ig; wc_modules := mods |}.
+
+Definition lsp_report (data : list (list int)) : N * list N :=
+  match rd_list rd_wcase (unpack data) with
+  | Some (cs, _) => (N.of_nat (length cs), lsp_failures cs 0)
+  | None => (0, decode_error)
   end.
